@@ -1538,6 +1538,10 @@ struct Queried {
     text: Option<Option<String>>,
     root: Option<When>,
     is_any: bool,
+    /// The combinator nests a combinator of no patterns and none of its actual members matches the
+    /// empty path: a match of the empty path is then the listed C07 finding (`any([])` is encoded
+    /// as the empty group), seen from a query monitor.
+    empty_inner_explains_empty_path: bool,
 }
 
 fn model_of(exprs: &[&str]) -> Option<ModelPattern> {
@@ -1569,6 +1573,7 @@ fn query<'t, P: Program<'t>>(p: &P, label: Value, is_any: bool, model: Option<Mo
         text: guarded(|| text_str(&p.text())),
         root: guarded(|| p.has_root()),
         is_any,
+        empty_inner_explains_empty_path: false,
     }
 }
 
@@ -1728,7 +1733,10 @@ fn c09_paths(q: &Queried, is_match: &dyn Fn(&str) -> Option<bool>, paths: &[Stri
             rpt.evaluations += 1;
             pairs += 1;
             if !got {
-                let key = if explained_by_empty_member(p) {
+                let key = if p.is_empty() && q.empty_inner_explains_empty_path {
+                    Some("combinator-of-no-patterns-matches-the-empty-path")
+                }
+                else if explained_by_empty_member(p) {
                     Some("empty-pattern-in-combinator-hides-earlier-patterns-from-the-exhaustiveness-fold")
                 }
                 else if (p.is_empty() || p == "/") && is_match(&child) == Some(false) {
@@ -1818,7 +1826,10 @@ fn c10_paths(q: &Queried, is_match: &dyn Fn(&str) -> Option<bool>, paths: &[Stri
             });
             let may = |quirks: Quirks| q.model.as_ref().map_or(Tri::Unknown, |m| m.matches(&pc, Mode::May, quirks));
             let mut undecided = false;
-            let key = if n == 0 || (p.ends_with('/') && p.len() > 1 && n + 1 == lo) {
+            let key = if p.is_empty() && q.empty_inner_explains_empty_path {
+                Some("combinator-of-no-patterns-matches-the-empty-path")
+            }
+            else if n == 0 || (p.ends_with('/') && p.len() > 1 && n + 1 == lo) {
                 Some("empty-component-counted-as-a-component")
             }
             else if rep_edge_shape || branch_tree_shape {
@@ -1917,7 +1928,10 @@ fn c11_paths(q: &Queried, is_match: &dyn Fn(&str) -> Option<bool>, paths: &[Stri
         rpt.evaluations += 1;
         others += 1;
         if got {
-            let key = if x.chars().count() == tc.len()
+            let key = if x.is_empty() && q.empty_inner_explains_empty_path {
+                Some("combinator-of-no-patterns-matches-the-empty-path")
+            }
+            else if x.chars().count() == tc.len()
                 && x.chars().zip(tc.iter()).all(|(a, b)| a == *b || (!has_casing_std(*b) && crate::refmodel::matcher::fold_eq(a, *b)))
             {
                 Some("caseless-by-std-but-folded-by-regex")
@@ -2045,7 +2059,15 @@ fn c12_paths(q: &Queried, is_match: &dyn Fn(&str) -> Option<bool>, paths: &[Stri
             rpt.evaluations += 1;
             n += 1;
             if !p.starts_with('/') {
-                let key = if only_rooted_tree { Some("only-token-rooted-tree-matches-relative-paths") } else { None };
+                let key = if p.is_empty() && q.empty_inner_explains_empty_path {
+                    Some("combinator-of-no-patterns-matches-the-empty-path")
+                }
+                else if only_rooted_tree {
+                    Some("only-token-rooted-tree-matches-relative-paths")
+                }
+                else {
+                    None
+                };
                 rpt.disagreement(
                     &ctx.known,
                     "always-rooted-but-matches-a-relative-path",
@@ -2644,6 +2666,9 @@ impl Monitor for GroupA {
                     exprs.push(&other2);
                 }
                 // (members, sizes of the consecutive groups of a nested combinator; empty = flat)
+                // Round 7: one nested combinator in four additionally holds a combinator of *no*
+                // patterns among its inner combinators (`any([any([]), any([a])])`): the union
+                // with nothing, which must answer every query like the combinator without it.
                 let mut combos: Vec<(Vec<&str>, Vec<usize>)> = Vec::new();
                 if exprs.len() > 1 || rng.chance(1, 4) {
                     let groups = if rng.chance(1, 3) { random_groups(&mut rng, exprs.len()) } else { Vec::new() };
@@ -2676,6 +2701,7 @@ impl Monitor for GroupA {
                     }
                 }
                 for (exprs, groups) in combos {
+                    let empty_inner_at: Option<usize> = if !groups.is_empty() && rng.chance(1, 4) { Some(rng.below(groups.len() + 1)) } else { None };
                     let built = if groups.is_empty() {
                         guarded(|| wax::any(exprs.iter().copied()).ok()).flatten()
                     }
@@ -2683,9 +2709,15 @@ impl Monitor for GroupA {
                         guarded(|| {
                             let mut inner = Vec::new();
                             let mut at = 0;
-                            for n in groups.iter() {
+                            for (k, n) in groups.iter().enumerate() {
+                                if empty_inner_at == Some(k) {
+                                    inner.push(wax::any(Vec::<&str>::new()).ok()?);
+                                }
                                 inner.push(wax::any(exprs[at..at + n].iter().copied()).ok()?);
                                 at += n;
+                            }
+                            if empty_inner_at == Some(groups.len()) {
+                                inner.push(wax::any(Vec::<&str>::new()).ok()?);
                             }
                             wax::any(inner).ok()
                         })
@@ -2714,7 +2746,13 @@ impl Monitor for GroupA {
                                 }
                             }
                         }
-                        let q = query(&any, json!({"any": exprs, "nested_group_sizes": groups}), true, model_of(&exprs), &exprs);
+                        let mut q = query(&any, json!({"any": exprs, "nested_group_sizes": groups, "combinator_of_no_patterns_inserted_before_group": empty_inner_at}), true, model_of(&exprs), &exprs);
+                        if empty_inner_at.is_some() {
+                            rpt.bucket("pattern:any(any) with a combinator of no patterns inside");
+                            q.empty_inner_explains_empty_path = !exprs
+                                .iter()
+                                .any(|e| guarded(|| Glob::new(e).map_or(false, |g| g.is_match(""))) != Some(false));
+                        }
                         let is_match = |p: &str| guarded(|| any.is_match(p));
                         let lists_sep_any = true; // unknown for the other patterns: do not demand self-match
                         match self.id {
